@@ -342,7 +342,7 @@ fn write_shards(out: &Path, runs: &[CrateRun]) -> usize {
 }
 
 fn main_c01(out: &Path, tier: &str, seed: u64) {
-    let (n_crates, n_progs, n_vecs) = if tier == "thorough" { (32, 40, 20) } else { (4, 16, 16) };
+    let (n_crates, n_progs, n_vecs) = if tier == "thorough" { (48, 40, 20) } else { (10, 24, 16) };
     let n_crates = std::env::var("H01_CRATES").ok().and_then(|s| s.parse().ok()).unwrap_or(n_crates);
     let n_progs = std::env::var("H01_PROGS").ok().and_then(|s| s.parse().ok()).unwrap_or(n_progs);
     std::fs::create_dir_all(out.join("src")).unwrap();
